@@ -314,6 +314,7 @@ pub fn run_request(req: &Value, out: &mut dyn FnMut(Value)) {
             out(args_record(&toks))
         }
         "scalar_range" => run_scalar_range(req, out),
+        "parse" => crate::typed::run_parse(req, out),
         "tokens_enum" => run_tokens_enum(req, out),
         "args_enum" => run_args_enum(req, out),
         other => panic!("unknown module request {other}"),
